@@ -328,18 +328,33 @@ def run_inventory(facts, root_insts, base_fields=None, root_params=None):
     return col
 
 
+PURE_OBSERVERS = ('core::cmp::PartialEq::eq', 'core::cmp::PartialEq::ne', 'core::cmp::PartialOrd::lt', 'core::cmp::PartialOrd::le',
+                  'core::cmp::PartialOrd::gt', 'core::cmp::PartialOrd::ge', 'core::option::Option::is_some',
+                  'core::option::Option::is_none', 'core::result::Result::is_ok', 'core::result::Result::is_err',
+                  'core::result::Result::ok', 'core::result::Result::err', 'core::option::Option::ok_or')
+
+
 def inside_debug_assert(fn, b):
     """is the checked operation at block b part of the condition of a `debug_assert!` and of nothing else?  Its result (followed
     through temporaries) is never stored, never passed to a call, and only decides switches one of whose arms is the
     assertion's own panic call."""
-    from model import op_place, operands_of_rvalue
+    from model import op_place
     t = fn.blocks[b]['term']
     if t['k'] != 'assert':
         return False
     cp = op_place(t.get('cond')) if t.get('cond') is not None else None
     if cp is None:
         return False
-    S = {cp['l']}
+    return feeds_only_debug_assert(fn, {cp['l']}, skip_assert_blk=b)
+
+
+def feeds_only_debug_assert(fn, start_locals, skip_assert_blk=None):
+    """do the given locals (followed forward through temporaries, shared references and side-effect-free observers such as
+    `==`, `is_some`, `ok`) end up nowhere but in the condition of a `debug_assert!`?"""
+    from model import op_place, operands_of_rvalue
+    b = skip_assert_blk
+    cp = {'l': next(iter(start_locals))}
+    S = set(start_locals)
     switches = set()
     changed = True
     while changed:
@@ -354,7 +369,11 @@ def inside_debug_assert(fn, b):
                     if p is not None and p['l'] in S:
                         uses = True
                 if s['rv']['k'] in ('ref', 'rawptr', 'discr') and s['rv']['p']['l'] in S:
-                    return False
+                    if s['rv']['k'] == 'rawptr' or s['rv'].get('mut') or s['lhs']['p']:
+                        return False
+                    if s['lhs']['l'] not in S:
+                        S.add(s['lhs']['l'])
+                        changed = True
                 if uses:
                     if s['lhs']['p']:
                         return False
@@ -366,14 +385,19 @@ def inside_debug_assert(fn, b):
                 for a in tt['args']:
                     p = op_place(a)
                     if p is not None and p['l'] in S:
-                        return False
+                        if tt.get('callee') in PURE_OBSERVERS and not tt['dest']['p']:
+                            if tt['dest']['l'] not in S:
+                                S.add(tt['dest']['l'])
+                                changed = True
+                        else:
+                            return False
             elif tt['k'] == 'switch':
                 p = op_place(tt['discr'])
                 if p is not None and p['l'] in S:
                     switches.add(bi)
             elif tt['k'] == 'assert' and bi != b:
                 p = op_place(tt.get('cond')) if tt.get('cond') is not None else None
-                if p is not None and p['l'] in S and p['l'] != cp['l']:
+                if p is not None and p['l'] in S and (b is None or p['l'] != cp['l']):
                     return False
     if not switches or 0 in S:
         return False
